@@ -43,7 +43,7 @@ Pick == /\ run = "gen" /\ scope = 0 /\ input = <<>> /\ nwords = 0 /\ \E s \in So
 StepM == /\ run \in {"A", "B", "C"} /\ MNext
          /\ devs' = IF run \in {"A", "B"} /\ phase = "parse" /\ Top.f = "CMD" /\ Top.pc \in {"req1", "req2"}
                        /\ Top.nreq > 0 /\ HasNext(tp)
-                       /\ (LET j == IF TC(tp) = "Sp" THEN tp + 1 ELSE tp IN HasNext(j) /\ TC(j) \notin {"GB", "Com"})       \* (a comment before the brace group does not make the argument unbraced)
+                       /\ (LET j == IF TC(tp) = "Sp" THEN tp + 1 ELSE tp IN HasNext(j) /\ TC(j) \notin {"GB", "Com", "GE"})       \* (a comment before the brace group does not make the argument unbraced)
                     THEN devs \cup {"BareArg"} ELSE devs
          /\ UNCHANGED <<scope, nwords, run, src0, resA, resB>>
 
